@@ -17,7 +17,7 @@ def run(ctx):
                 "state (logistic / linear / shared-speed / joint, with and without sources, seeded population values, optionally one "
                 "extreme progressor xi = 4.8, a Weibull scale with n_log_nu = -7.2, or a reverted proposal on the velocities), the "
                 "real re-centring (compute_sufficient_statistics) is applied and TLC checks the verdicts (TrajectoryTrace.tla): "
-                "trajectories, per-individual attachments and event likelihoods unchanged within 1e-5 (1 + |value|), mean of the "
+                "(joint models also with two competing kinds of event) trajectories, per-individual attachments and event likelihoods unchanged within 1e-5 (1 + |value|), mean of the "
                 "log-accelerations <= 1e-6, every mixing-matrix row orthogonal in the metric to the progression direction "
                 "(cosine in the metric <= 1e-4; metric and direction are the terms of Trajectory.tla part D evaluated at the state's g, v0, "
                 "deltas - not the model's own metric variable), also with velocities near the single-precision floor and with features far "
@@ -30,9 +30,9 @@ def run(ctx):
     if res.violated:
         ctx.violation({"check": "design", "invariant": res.violated[0]}, f"Trajectory.tla violates {res.violated}", replay=res.trace_text[:3000])
     rnd = random.Random(ctx.seed)
-    configs = ["logistic_diag_src1", "linear_scalar_src1", "joint_src1", "joint_nosrc"] if q else \
+    configs = ["logistic_diag_src1", "linear_scalar_src1", "joint_src1", "joint_nosrc", "joint_src1_ev2"] if q else \
         ["logistic_diag_src1", "logistic_scalar_src1", "logistic_diag_nosrc", "linear_scalar_src1", "linear_diag_src1", "joint_src1",
-         "joint_nosrc", "joint_univariate", "logistic_binary"]
+         "joint_nosrc", "joint_univariate", "logistic_binary", "joint_src1_ev2", "joint_nosrc_ev2"]
     # the terms of the squared metric and of the direction of progression, per family (stated in Trajectory.tla)
     metric_terms = {str(c["kind"]): (tj.totuple(c["msq"]), tj.totuple(c["dir"])) for c in cs}
     triples = sorted({tuple(c["xis"]) for c in cs})
@@ -63,6 +63,22 @@ def run(ctx):
             if r["status"] != "ok" or failed:
                 ctx.violation({"check": "gauge", "config": r["config"], "failed": (failed or [r["status"][:40]])[0], "extreme": r["extreme"]},
                               f"re-centring on {r['config']} (xi pattern {r['xis']}, {r['extreme']}): {failed or r['status']}; gaps {r.get('gaps')}", replay=r)
+    # the function every mixing matrix is built from, on its whole interface (dimension x metric kind x stripped column)
+    res_b, cs_b = cases.enumerate_cases("OrthoBasis", "MC_OrthoBasis.cfg", tmp, "basis")
+    ctx.add_tlc("OrthoBasis case table", res_b)
+    recs_b = []
+    for c in cs_b:
+        for rep in range(2 if q else 10):
+            recs_b.append(tj.run_basis_case(int(c["n"]), str(c["metric"]), int(c["strip"]), rnd))
+        ctx.case(key=("basis", int(c["n"]), str(c["metric"]), int(c["strip"])))
+    cfg_b = 'SPECIFICATION TSpec\nCONSTANTS\n  Dims = {}\n  MetricKinds = {}\nINVARIANT Conforms\nINVARIANT Covered\n'
+    okb, idxb, rb = cases.validate_records("OrthoBasisTrace", cfg_b, recs_b, tmp, "basis_conf", env={"EXPECT_COUNT": str(len(cs_b))})
+    ctx.traces += len(recs_b)
+    ctx.log(f"{len(recs_b)} calls of compute_orthonormal_basis over {len(cs_b)} interface cases -> {'all conform' if okb else 'MISMATCH'}")
+    if not okb:
+        bad = recs_b[idxb] if idxb is not None else None
+        ctx.violation({"check": "basis", "metric": bad and bad["metric"], "strip_is_zero": bad and bad["strip"] == 0},
+                      f"compute_orthonormal_basis breaks its contract on {bad}", replay=bad)
     import copy
     good = next(r for r in recs if r["status"] == "ok")
     bad = copy.deepcopy(good)
